@@ -477,7 +477,7 @@ class Interp:
         if t[0] in ('const', 'num'):
             return 'lit'
         if t[0] in ('list', 'tuple', 'dict', 'new', 'closure', 'classref',
-                    'funcref', 'bin'):
+                    'funcref'):
             return 'obj'
         return 'unknown'
 
@@ -586,6 +586,16 @@ class Interp:
             lists = [self.iter_items(a) for a in it[2]]
             if lists and all(l is not None for l in lists):
                 return [('tuple', tuple(xs)) for xs in zip(*lists)]
+            known = [l for l in lists if l is not None]
+            if known:
+                # zip stops at the shortest: the known finite operands bound the
+                # length; unknown operands contribute their i-th element
+                n = min(len(l) for l in known)
+                cols = []
+                for a, l in zip(it[2], lists):
+                    cols.append(l[:n] if l is not None else
+                                [self.getitem_term(a, num(i)) for i in range(n)])
+                return [('tuple', tuple(xs)) for xs in zip(*cols)]
         if it[0] == 'call' and it[1] == 'reversed' and len(it[2]) == 1:
             items = self.iter_items(it[2][0])
             if items is not None:
@@ -1003,6 +1013,12 @@ class Interp:
                 x == NONE or (is_num(x) and x[1].denominator == 1) for x in key[1:]):
             sl = slice(*[None if x == NONE else int(x[1]) for x in key[1:]])
             return (base[0], tuple(base[1][sl]))
+        if base[0] == 'call' and base[1] == 'numpy.repeat' and len(base[2]) == 2 and \
+                not base[3] and is_num(base[2][1]) and is_num(key) and \
+                key[1].denominator == 1 and base[2][1][1] > 0 and key[1] >= 0:
+            # np.repeat(a, k)[j] == a[j // k] for a 1-D array a
+            return self.getitem_term(base[2][0],
+                                     num(int(key[1]) // int(base[2][1][1])))
         if base[0] == 'elem' and base[1][0] == 'call' and base[1][1] == 'zip' and \
                 not base[1][3] and is_num(key) and key[1].denominator == 1 and \
                 0 <= int(key[1]) < len(base[1][2]):
@@ -1536,6 +1552,12 @@ class Interp:
         if name == 'dict' and len(pos) == 1 and not kws and pos[0][0] in ('list', 'tuple') \
                 and all(x[0] == 'tuple' and len(x[1]) == 2 for x in pos[0][1]):
             return ('dict', tuple((x[1][0], x[1][1]) for x in pos[0][1]))
+        if name == 'dict' and len(pos) == 1 and not kws and pos[0][0] == 'call' and \
+                pos[0][1] == 'zip':
+            items = self.iter_items(pos[0])
+            if items is not None and all(x[0] == 'tuple' and len(x[1]) == 2
+                                         for x in items):
+                return ('dict', tuple((x[1][0], x[1][1]) for x in items))
         if name == 'dict' and len(pos) == 1 and not kws and pos[0][0] == 'dict':
             return pos[0]
         if name == 'dict' and not pos and '**' not in kws:
